@@ -552,7 +552,7 @@ mod e {
         }
     }
 
-    fn run(w: &mut World, m: TransactionManifestV1, tip: TipSpecifier, free: Decimal) -> Result<TransactionReceipt, String> {
+    fn run(w: &mut World, m: TransactionManifestV1, tip: TipSpecifier, free: Decimal, cp: Option<CostingParameters>) -> Result<TransactionReceipt, String> {
         let nonce = w.sim.next_transaction_nonce();
         let proofs: BTreeSet<NonFungibleGlobalId> = [w.pa.clone(), w.pb.clone()].into_iter().collect();
         let e = TestTransaction::new_v1_from_nonce(m, nonce, proofs).into_executable(w.sim.transaction_validator()).map_err(|e| format!("{:?}", e))?;
@@ -569,15 +569,34 @@ mod e {
         };
         let e2 = ExecutableTransaction::new_v2(e.transaction_intent().clone(), e.subintents().to_vec(), ctx);
         let sim = &mut w.sim;
-        catch(move || sim.execute_transaction(e2, ExecutionConfig::for_notarized_transaction(NetworkDefinition::simulator())))
+        let mut cfg = ExecutionConfig::for_notarized_transaction(NetworkDefinition::simulator());
+        if cp.is_some() {
+            cfg.system_overrides = Some(SystemOverrides { costing_parameters: cp, ..cfg.system_overrides.unwrap_or_default() });
+        }
+        catch(move || sim.execute_transaction(e2, cfg))
     }
 
     impl Runner for RE {
         fn step(&mut self, line: &str) -> Answer {
             let t: Vec<&str> = line.split(' ').filter(|s| !s.is_empty()).collect();
-            if t.len() != 7 || t[0] != "tx" {
+            // `txi … <execution price in attos>`: same as `tx` with the execution/finalization unit price
+            // overridden through SystemOverrides (used by stored replays only, never generated)
+            let cp_override: Option<CostingParameters> = if t.len() == 8 && t[0] == "txi" {
+                match dec(t[7]) {
+                    Some(p) if !p.is_negative() => {
+                        let mut c = CostingParameters::babylon_genesis();
+                        c.execution_cost_unit_price = p;
+                        c.finalization_cost_unit_price = p;
+                        Some(c)
+                    }
+                    _ => return Answer::ok("bad-op"),
+                }
+            } else if t.len() == 7 && t[0] == "tx" {
+                None
+            } else {
                 return Answer::ok("bad-op");
-            }
+            };
+            let pkey = if cp_override.is_some() { "c06e-executor-panic-overridden-costing-parameters" } else { "c06e-executor-panic" };
             let (Some(sc), Some(tv), Ok(rel), Some(fbx), Some(free)) = (pu32(t[1]), pu32(t[3]), t[4].parse::<i64>(), pu32(t[5]), dec(t[6])) else { return Answer::ok("bad-op") };
             let tip = match t[2] {
                 "n" => TipSpecifier::None,
@@ -600,9 +619,9 @@ mod e {
             let fb = Decimal::from(1u32) + Decimal::from_attos(I192::from(fbx as u64) * I192::from(1_000_000_000_000_000u64));
             // pass 1: measure the total cost with generous locks (cost units do not depend on the locked amounts)
             let m1 = manifest(w, sc as u64, dec!(5000), fb);
-            let r1 = match run(w, m1, tip, Decimal::ZERO) {
+            let r1 = match run(w, m1, tip, Decimal::ZERO, cp_override) {
                 Ok(r) => r,
-                Err(p) => return Answer::fail("panic", "c06e-executor-panic", format!("pass 1 panicked: {}", p)),
+                Err(p) => return Answer::fail("panic", pkey, format!("pass 1 panicked: {}", p)),
             };
             if r1.is_rejection() || matches!(r1.result, TransactionResult::Abort(_)) {
                 return Answer::fail("probe-not-committed", "c06e-probe-rejected", "a generously funded transaction was not committed".to_string());
@@ -623,11 +642,11 @@ mod e {
             };
             let fa = if fa.is_negative() { Decimal::ZERO } else { fa };
             let m2 = manifest(w, sc as u64, fa, fb);
-            let r = match run(w, m2, tip, free) {
+            let r = match run(w, m2, tip, free, cp_override) {
                 Ok(r) => r,
                 Err(p) => {
                     self.w = None;
-                    return Answer::fail("panic", "c06e-executor-panic", format!("executor panicked: {}", p));
+                    return Answer::fail("panic", pkey, format!("executor panicked: {}", p));
                 }
             };
             // ---------------------------------------------------------------- oracle
@@ -641,7 +660,7 @@ mod e {
             let prop = big(tip.proportion());
             let one = BigInt::from(ONE);
             let exp_tip = (big(fs.total_execution_cost_in_xrd) * &prop) / &one + (big(fs.total_finalization_cost_in_xrd) * &prop) / &one;
-            if exp_tip != big(fs.total_tipping_cost_in_xrd) {
+            if exp_tip != big(fs.total_tipping_cost_in_xrd) && cp_override.is_none() {
                 return Answer::fail("tip", "c06e-tip-mismatch", format!("tipping cost {} expected {}", fs.total_tipping_cost_in_xrd, exp_tip));
             }
             match &r.result {
